@@ -544,6 +544,7 @@ pub fn c11(cfg: C11Cfg, bound: u32) -> ThHarness {
 
 // --------------------------------------------------------------------- C03
 
+#[derive(Clone)]
 pub struct C03Cfg {
     pub sq: u32,
     /// Pre-fill the submission queue with this many unsubmitted operations.
@@ -557,6 +558,8 @@ pub struct C03Cfg {
     pub max_polls: usize,
     /// The ring has a kernel thread: submissions are consumed by an actor at any scheduling point.
     pub sqpoll: bool,
+    /// The ring thread polls without a timeout (`Ring::poll(None)`).
+    pub poll_none: bool,
 }
 
 struct C03Shared {
@@ -569,7 +572,7 @@ struct C03Shared {
 }
 
 pub fn c03_threads(cfg: C03Cfg, bound: u32) -> ThHarness {
-    let name = format!("threads-sq{}-prefill{}-{:?}x{}{}{}", cfg.sq, cfg.prefill, cfg.kind, cfg.tasks, if cfg.repoll_fresh { "-repoll" } else { "" }, if cfg.sqpoll { "-sqpoll" } else { "" });
+    let name = format!("threads-sq{}-prefill{}-{:?}x{}{}{}{}", cfg.sq, cfg.prefill, cfg.kind, cfg.tasks, if cfg.repoll_fresh { "-repoll" } else { "" }, if cfg.sqpoll { "-sqpoll" } else { "" }, if cfg.poll_none { "-poll-without-timeout" } else { "" });
     let describe = json!({"engine": "schx", "sq": cfg.sq, "prefilled_submissions": cfg.prefill, "kind": format!("{:?}", cfg.kind), "tasks": cfg.tasks, "repoll_with_fresh_waker": cfg.repoll_fresh, "ring_thread_polls": cfg.max_polls, "preemption_bound": bound});
     let cfg = Arc::new(cfg);
     ThHarness {
@@ -666,6 +669,7 @@ pub fn c03_threads(cfg: C03Cfg, bound: u32) -> ThHarness {
             {
                 let shared = shared.clone();
                 let max_polls = cfg.max_polls;
+                let poll_timeout = if cfg.poll_none { None } else { Some(Duration::from_secs(1)) };
                 bodies.push((
                     "ring".into(),
                     Box::new(move || {
@@ -678,7 +682,7 @@ pub fn c03_threads(cfg: C03Cfg, bound: u32) -> ThHarness {
                             let (ready, room0) = simk::with(|k| (k.rings[0].cq_ready() != 0 || !k.rings[0].overflow.is_empty(), k.rings[0].sq_pending() < k.rings[0].sq_entries));
                             shared.lock().unwrap().0.events.push((0, format!("ring-poll-begin{}{}", if room0 { ":room0" } else { "" }, if ready { ":ready" } else { "" }), crate::waker::tick()));
                             talloc::track(|| {
-                                let _ = ring.poll(Some(Duration::from_secs(1)));
+                                let _ = ring.poll(poll_timeout);
                             });
                             let (room, head) = simk::with(|k| (k.rings[0].sq_pending() < k.rings[0].sq_entries, k.rings[0].cq_head()));
                             shared.lock().unwrap().0.events.push((0, format!("ring-poll-end:{}:{head}", if room { "room" } else { "full" }), crate::waker::tick()));
@@ -715,11 +719,27 @@ pub fn c03_threads(cfg: C03Cfg, bound: u32) -> ThHarness {
             }
             let sq2 = Sendable(sq);
             let prefill = Sendable(prefill_ops);
-            let judge = Box::new(move |_exec: &Exec| -> Vec<Violation> {
+            let judge = Box::new(move |exec: &Exec| -> Vec<Violation> {
                 let (sq, prefill) = (sq2, prefill);
                 let mut v = sim_violations("C03");
                 let mut g = shared.lock().unwrap();
                 let s = &mut g.0;
+                // A Ring::poll(None) that sits in the kernel for ever while a task waits for a submission
+                // slot that is free: nothing else ever completes here (the queued writes never do).
+                if cfg.poll_none {
+                    for d in &exec.deadlocks {
+                        if !(d.contains("io_uring_enter") && d.contains("waiting for its waker")) {
+                            continue;
+                        }
+                        for t in 0..s.stuck.len() {
+                            let submitted_ever = s.events.iter().any(|(th, e, _)| *th == t + 1 && e.starts_with("task-poll-end") && e.ends_with(":submitted"));
+                            let room = simk::with(|k| k.rings[0].sq_pending() < k.rings[0].sq_entries);
+                            if s.stuck[t].is_some() && !submitted_ever && find_user_data(cfg.kind, t).is_none() && room {
+                                v.push(Violation::new("C03", "lost-wakeup/queue-space/poll-blocks", &format!("task {t} waits for a submission slot, the queue has room, and the ring thread's Ring::poll(None) waits in the kernel for a completion that never comes ({d}); events {:?}", s.events)));
+                            }
+                        }
+                    }
+                }
                 for t in 0..s.stuck.len() {
                     let Some(msg) = &s.stuck[t] else { continue };
                     // The last poll of the task.
